@@ -451,6 +451,16 @@ def run_option(rec, case, seed):
         which = "definition-time-value-ignored" if c is None else ("call-time-value-rejected" if got[0] == "raise" else "call-time-value-does-not-win")
         rec.violation("options", f"{opt}:{which}", case, want[:2] + ((np.frombuffer(want[2]).tolist(),) if want[0] == "ok" else ()),
                       got[:2] + ((np.frombuffer(got[2]).tolist(),) if got[0] == "ok" else ()))
+        return
+    if c is not None:
+        # a call-time value holds for that call only: the same grid ufunc object called again without it answers like a
+        # freshly defined one
+        again = run(lambda: guf(g, da, axis=[("X",)]))
+        fresh = run(lambda: as_grid_ufunc(signature="(X:center)->(X:left)", boundary_width={k: tuple(v) for k, v in bw.items()}, **{k: norm(v) for k, v in def_kw.items()})(_diff)(g, da, axis=[("X",)]))
+        rec.calls += 2
+        if again != fresh:
+            rec.violation("options", f"{opt}:call-time-value-sticks-to-the-grid-ufunc", case, fresh[:2] + ((np.frombuffer(fresh[2]).tolist(),) if fresh[0] == "ok" else ()),
+                          again[:2] + ((np.frombuffer(again[2]).tolist(),) if again[0] == "ok" else ()))
 
 
 # ------------------------------------------------------------------ two-axis halos under map_overlap
